@@ -666,7 +666,10 @@ static size_t ZDICT_analyzeEntropy(void*  dstBuffer, size_t maxDstSize,
     HUF_CREATE_STATIC_CTABLE(hufTable, 255);
     unsigned offcodeCount[OFFCODE_MAX+1];
     short offcodeNCount[OFFCODE_MAX+1];
-    U32 offcodeMax = ZSTD_highbit32((U32)(dictBufferSize + 128 KB));
+    size_t const maxOffset = dictBufferSize + 128 KB;
+    /* tested on the full width : a content of 2 GB or more is too large, whatever its low 32 bits */
+    U32 offcodeMax = ((maxOffset >= dictBufferSize) && ((maxOffset >> (OFFCODE_MAX+1)) == 0)) ?
+                     ZSTD_highbit32((U32)maxOffset) : OFFCODE_MAX+1;
     unsigned matchLengthCount[MaxML+1];
     short matchLengthNCount[MaxML+1];
     unsigned litLengthCount[MaxLL+1];
